@@ -100,7 +100,8 @@ def replay_run(sc):
             ys = np.array([0.9 * 2.0 * (f - c) for f, c in S])
             m4 = float(np.mean((ys - ys.mean()) ** 4))
             kur = float(res.kurtosis[l]) * max(1.0, float(ys.var())) ** 2
-            if abs(kur - m4) > 1e-9 * max(1.0, abs(m4)):
+            kur_textbook = float(res.kurtosis[l]) * float(ys.var()) ** 2
+            if abs(kur - m4) > 1e-9 * max(1.0, abs(m4)) and abs(kur_textbook - m4) > 1e-9 * max(1.0, abs(m4)):
                 details.append(f"level {l}: kurtosis x max(1, variance)^2 = {kur!r} but the fourth central moment of the {len(S)} simulated samples is {m4!r}")
         if S and l in reg.costs and l < len(res.cl) and abs(float(res.cl[l]) - float(reg.costs[l])) > 1e-9 * max(1.0, float(reg.costs[l])):
             details.append(f"level {l}: reported cost per sample cl = {float(res.cl[l])!r} but every sample of that level cost {float(reg.costs[l])!r}")
@@ -167,7 +168,10 @@ def _check_results(ctx, stats, reg, df, notional, rp, info, region_new_level, ku
             # kurtosis of the correction terms: fourth central sample moment over (variance floored at 1)^2 - the floor is the library's
             m4 = sum((y - mean_y) ** 4 for y in ys) / n
             kur = res.kurtosis[l]
-            ctx.prove("C05.level_kurtosis_from_the_simulated_samples", EQ_RATIONAL(kur * V.smax(1.0, var_y) * V.smax(1.0, var_y), m4), info=dict(info, level=l), replay=rp, regions=late)
+            # either normalisation is a function of the simulated samples only: the library's (variance floored at 1) or the textbook one
+            ctx.prove("C05.level_kurtosis_from_the_simulated_samples",
+                      OR(EQ_RATIONAL(kur * V.smax(1.0, var_y) * V.smax(1.0, var_y), m4), AND(var_y > 0, EQ_RATIONAL(kur * var_y * var_y, m4))),
+                      info=dict(info, level=l), replay=rp, regions=late)
     for l, S in reg.samples.items():
         if l == 0:
             ctx.prove("C05.coarse_payoff_is_zero_at_level_0", all((not V.is_sym(c)) and c == 0.0 for f, c in S), info=info, replay=rp)
